@@ -315,7 +315,7 @@ fn one_run(run: u64, si: usize, s: &Value, kind: &str, ms: &[usize], rng: &mut i
     let tb: Vec<Vec<Vec<i64>>> = tables.iter().map(|c| c.iter().map(|t| t.iter().map(&rk).collect()).collect()).collect();
     out.line(&json!({"op": "new", "run": run, "sched": si, "cfg": classes.iter().map(|c| c.json()).collect::<Vec<_>>(), "m": m, "ninst": ninst, "pc": pc,
         "dir": if is_min(kind) {"min"} else {"max"}, "pub": public, "sig": has_sig, "raw": raw, "init": rk(&initk), "tables": tb,
-        "fullkind": full_kind, "wscale_log2": wscale.log2(), "minw": items.iter().map(|i| i.w).fold(f64::INFINITY, f64::min),
+        "fullkind": full_kind, "wscale_log2": wscale.log2(), "minw": if items.is_empty() { 1.0 } else { items.iter().map(|i| i.w).fold(f64::INFINITY, f64::min) },
         "items": items.iter().map(|i| json!([i.id.to_string(), i.w])).collect::<Vec<_>>()}));
     for e in evs {
         let mut v = e.v;
